@@ -86,14 +86,14 @@ def tree_sexp(t):
 
 def frag_program(rng):
     """a program of the fragment for which compile-then-execute = source meaning is PROVED (props/C01.v, C01_var_programs):
-    top-level declarations, assignments, expression statements and if/else with assignment / expression branches over
-    scalar expressions; here it is rendered to source text and pushed through the real pipeline like every other program"""
+    top-level declarations, assignments, expression statements, if/else and (counted, hence ending) condition loops
+    nested up to three deep, over scalar expressions on integers, booleans, nil and strings; here it is rendered to source text and pushed through the real pipeline like every other program"""
     nvars = [0]
     kinds = []          # 'i' / 'b' / '?' per variable (what it was last given; a guide for the generator, not a type system)
 
     def iexpr(d, tern_ok=True):
         k = rng.below(11 if d < 3 else 3)
-        ivars = [j for j, t in enumerate(kinds) if t == 'i']
+        ivars = [j for j, t in enumerate(kinds) if t in ('i', 'c')]
         if k == 0 or (k < 3 and not ivars):
             return str(rng.choice([0, 1, 2, 3, 7, 10, -1, -5, 100, 9223372036854775807]))
         if k < 3:
@@ -107,7 +107,7 @@ def frag_program(rng):
         if k == 9:
             return "(%s %s %s)" % (iexpr(d + 1, tern_ok), rng.choice(["&&", "||"]), iexpr(d + 1, tern_ok))
         if k == 10 and rng.chance(1, 4):
-            return rng.choice(["nil", "true", "(1 + nil)", "(nil < 1)"])      # the occasional type error
+            return rng.choice(["nil", "true", "(1 + nil)", "(nil < 1)", '("a" - "b")', '(1 + "a")', '("a" < 1)', '("a" * 2)'])      # the occasional type error
         return str(rng.below(20))
 
     def bexpr(d, tern_ok=True):
@@ -125,37 +125,76 @@ def frag_program(rng):
             return "(%s %s %s)" % (bexpr(d + 1, tern_ok), rng.choice(["&&", "||", "==", "!="]), bexpr(d + 1, tern_ok))
         return "(%s == nil)" % iexpr(d + 1, tern_ok)
 
+    def sexpr(d):
+        k = rng.below(6 if d < 3 else 2)
+        svars = [j for j, t in enumerate(kinds) if t == 's']
+        if k == 0 or (k == 1 and not svars):
+            return rng.choice(['""', '"a"', '"ab"', '"b"', '"abc"', '"A"', '"é"', '"a b"', '"0"'])
+        if k == 1:
+            return "v%d" % rng.choice(svars)
+        if k < 5:
+            return "(%s + %s)" % (sexpr(d + 1), sexpr(d + 1))
+        return "(%s ? %s : %s)" % (bexpr(d + 1, False), sexpr(d + 1), sexpr(d + 1))
+
     def expr(d):
-        return (iexpr(d), 'i') if rng.chance(3, 4) else (bexpr(d), 'b')
+        k = rng.below(8)
+        if k < 5:
+            return iexpr(d), 'i'
+        if k < 7:
+            return bexpr(d), 'b'
+        return sexpr(d), 's'
+
+    free_counters = []      # loop counters: declared first, assigned only by the loop that uses them
 
     def simple():
-        if nvars[0] and rng.chance(1, 2):
-            j = rng.below(nvars[0])
+        cand = [j for j in range(nvars[0]) if kinds[j] != 'c']
+        if cand and rng.chance(1, 2):
+            j = rng.choice(cand)
             e, t = expr(1)
             kinds[j] = '?' if kinds[j] != t else t     # assigned on one path only: not relied upon afterwards
             return "v%d = %s" % (j, e)
         return expr(1)[0]
 
+    def block(depth):
+        return "; ".join(x for _ in range(rng.below(3)) for x in inner(depth))
+
+    def inner(depth):
+        """the statements a block may hold: assignments, expressions, conditionals, counted loops (nesting <= 3)"""
+        k = rng.below(10)
+        if k >= 7 and depth < 3:
+            return ["if %s { %s } else { %s }" % (bexpr(1), block(depth + 1), block(depth + 1))]
+        if k == 6 and depth < 3 and free_counters:
+            j = free_counters.pop()
+            body = block(depth + 1)
+            free_counters.append(j)
+            return ["v%d = 0" % j,
+                    "for v%d < %d { %s }" % (j, rng.below(4), (body + "; " if body else "") + "v%d = v%d + 1" % (j, j))]
+        return [simple()]
+
     lines = []
+    for _ in range(rng.below(3)):
+        lines.append("v%d := 0" % nvars[0])
+        free_counters.append(nvars[0])
+        nvars[0] += 1
+        kinds.append('c')
     for _ in range(2 + rng.below(7)):
-        k = rng.below(8)
-        if k < 3 or nvars[0] == 0:
+        k = rng.below(9)
+        cand = [j for j in range(nvars[0]) if kinds[j] != 'c']
+        if k < 3 or not cand:
             e, t = expr(0)
             lines.append("v%d := %s" % (nvars[0], e))
             nvars[0] += 1
             kinds.append(t)
         elif k < 5:
-            j = rng.below(nvars[0])
+            j = rng.choice(cand)
             e, t = expr(0)
             kinds[j] = t
             lines.append("v%d = %s" % (j, e))
         elif k == 5:
             lines.append(expr(0)[0])
         else:
-            c = bexpr(1)
-            t = "; ".join(simple() for _ in range(rng.below(3)))
-            e = "; ".join(simple() for _ in range(rng.below(3)))
-            lines.append("if %s { %s } else { %s }" % (c, t, e))
+            lines.extend(inner(0) if rng.chance(1, 2) else
+                         ["if %s { %s } else { %s }" % (bexpr(1), block(1), block(1))])
     return "\n".join(lines)
 
 
